@@ -255,10 +255,11 @@ class _AsyncioReadWriteLock(ReadWriteLock):
     def subsystem(self) -> str:
         return 'asyncio'
 
-    async def _acquire_read(self) -> bool:
+    async def _acquire_read(self) -> None:
         async with self._read_lock:
+            if self._counter == 0:
+                await self._write_lock.acquire()
             self._counter += 1
-            return self._counter == 1
 
     async def _release_read(self) -> bool:
         async with self._read_lock:
@@ -267,8 +268,7 @@ class _AsyncioReadWriteLock(ReadWriteLock):
 
     @asynccontextmanager
     async def read_lock(self) -> AsyncIterator[None]:
-        if await self._acquire_read():
-            await self._write_lock.acquire()
+        await self._acquire_read()
         try:
             yield
         finally:
@@ -293,10 +293,11 @@ class _ThreadingReadWriteLock(ReadWriteLock):  # pragma: no cover
     def subsystem(self) -> str:
         return 'threading'
 
-    def _acquire_read(self) -> bool:
+    def _acquire_read(self) -> None:
         with self._read_lock:
+            if self._counter == 0:
+                self._write_lock.acquire()
             self._counter += 1
-            return self._counter == 1
 
     def _release_read(self) -> bool:
         with self._read_lock:
@@ -305,8 +306,7 @@ class _ThreadingReadWriteLock(ReadWriteLock):  # pragma: no cover
 
     @asynccontextmanager
     async def read_lock(self) -> AsyncIterator[None]:
-        if self._acquire_read():
-            self._write_lock.acquire()
+        self._acquire_read()
         try:
             yield
         finally:
